@@ -91,6 +91,9 @@ inductive Act
   | resume (id : Id)
   | read (id : Id)
   | write (id : Id) (n : Nat) (o : Outcome)
+  | mkPair (id : Id)
+  | mkListener (id : Id)
+  | mkEst (id : Id)
   deriving Repr
 
 inductive Ev
@@ -193,9 +196,11 @@ def markGone (s : St) (i : Id) : St := { s with gone := upd s.gone i true }
 
 def fresh (s : St) (i : Id) : Bool := !s.used i && i < 1000
 
-/-- `Server::time(interval, cb)` -/
-def mkTimer (s : St) (i : Id) (iv : Int) : St :=
+/-- `Server::time(interval, cb)` (repaired, fixes/server/03: an interval below 1 ms is raised to 1 ms — with
+    interval 0 the timer loop of run() never ended) -/
+def mkTimer (s : St) (i : Id) (iv0 : Int) : St :=
   if fresh s i then
+    let iv : Int := if iv0 < 1 then 1 else iv0
     let t : TimerS := { exec := s.clock + iv, interval := iv }
     { s with timers := upd s.timers i (some t), queue := qInsert s.queue t.exec (some i),
              used := upd s.used i true, order := s.order ++ [i] }
@@ -289,6 +294,25 @@ def write (s : St) (i : Id) (n : Nat) (o : Outcome) : St :=
     else { s with clients := upd s.clients i (some { c with backlog := c.backlog + n }) }
   | none => s
 
+/-- `Server::pair` / `listen` / `connect` (usable at top level and inside callbacks) -/
+def mkPair (s : St) (i : Id) : St :=
+  if fresh s i then
+    let s1 := { s with clients := upd s.clients i (some { hasCb := true }), used := upd s.used i true, order := s.order ++ [i] }
+    pollSet s1 i { r := true }
+  else s
+
+def mkListener (s : St) (i : Id) : St :=
+  if fresh s i then
+    let s1 := { s with listeners := upd s.listeners i (some {}), used := upd s.used i true, order := s.order ++ [i] }
+    pollSet s1 i { a := true }
+  else s
+
+def mkEst (s : St) (i : Id) : St :=
+  if fresh s i then
+    let s1 := { s with ests := upd s.ests i (some {}), used := upd s.used i true, order := s.order ++ [i] }
+    pollSet s1 i { c := true }
+  else s
+
 /-- one API call; `newc` = the client being handed to the running onAccepted/onConnected -/
 def applyAct (s : St) (newc : Option Id) : Act → St
   | .mkTimer i iv => mkTimer s i iv
@@ -303,6 +327,9 @@ def applyAct (s : St) (newc : Option Id) : Act → St
   | .resume i => resume s i
   | .read i => read s i
   | .write i n o => write s i n o
+  | .mkPair i => mkPair s i
+  | .mkListener i => mkListener s i
+  | .mkEst i => mkEst s i
 
 def runActs (s : St) (newc : Option Id) : List Act → St
   | [] => s
@@ -494,25 +521,6 @@ def envStep (s : St) : EnvOp → St
     match s.ests i with
     | some e => { s with ests := upd s.ests i (some { e with connected := false }) }
     | none => s
-
-/-- creation calls that exist only at top level in the harness -/
-def mkPair (s : St) (i : Id) : St :=
-  if fresh s i then
-    let s1 := { s with clients := upd s.clients i (some { hasCb := true }), used := upd s.used i true, order := s.order ++ [i] }
-    pollSet s1 i { r := true }
-  else s
-
-def mkListener (s : St) (i : Id) : St :=
-  if fresh s i then
-    let s1 := { s with listeners := upd s.listeners i (some {}), used := upd s.used i true, order := s.order ++ [i] }
-    pollSet s1 i { a := true }
-  else s
-
-def mkEst (s : St) (i : Id) : St :=
-  if fresh s i then
-    let s1 := { s with ests := upd s.ests i (some {}), used := upd s.used i true, order := s.order ++ [i] }
-    pollSet s1 i { c := true }
-  else s
 
 def setScript (s : St) (i : Id) (k : Nat) (acts : List Act) : St :=
   { s with scripts := fun j n => if j = i ∧ n = k then acts else s.scripts j n }
